@@ -525,7 +525,7 @@ def gen_gate_case(rng: random.Random) -> dict:
 
 async def run_gate_case(case: dict) -> dict:
     import kopf
-    from kopf._cogs.aiokits import aiotasks, aiotoggles
+    from kopf._cogs.aiokits import aiotoggles
     from kopf._cogs.clients import watching
     from kopf._cogs.configs import configuration
     from kopf._cogs.structs import ephemera, references
@@ -534,7 +534,6 @@ async def run_gate_case(case: dict) -> dict:
     from kopf._core.intents import registries
     from kopf._core.reactor import inventory, orchestration, processing, queueing
 
-    loop = asyncio.get_running_loop()
     labels: list[list] = []          # the label trace for the Lean LTS, each with a snapshot
     obslog: list[tuple] = []         # implementation-level observations for the oracle
     kinds = [k["name"] for k in case["kinds"]]
@@ -828,13 +827,13 @@ def run_gate_cases(cases: list[dict]) -> list[dict]:
 
 
 def _ask(reqs: list) -> list:
-    """Driver call; one retry after (re)building the driver modules: other properties' builders
-    register their handlers in Drv/All.lean concurrently, an olean can be missing for a moment."""
+    """Driver call (also from pool workers); one retry after (re)building the driver modules."""
+    drv = leanio.Driver([ID])            # the property's own driver: Kopf.Drv.C17 + Kopf.Drv.Main only
     try:
-        return leanio.Driver().ask(reqs)
+        return drv.ask(reqs)
     except leanio.LeanError:
-        leanio.lake_build(["Kopf.Drv.All"])
-        return leanio.Driver().ask(reqs)
+        leanio.lake_build(drv.build_targets())
+        return drv.ask(reqs)
 
 
 def _new_summary() -> dict:
